@@ -1,7 +1,7 @@
 /-
 C11 — Python ranges and python_version markers convert into each other exactly.
 Property theorems only (helper lemmas in Proofs/PyConvText.lean, PyConvMarker.lean, PyConvSem.lean,
-PyConvRange.lean, PyConvNorm.lean).
+PyConvRange.lean, PyConvNorm.lean, PyConvGpc.lean).
 
 Vocabulary.  `EnvPy E X Y Z`: the environment `E` has `python_version = "X.Y"` and
 `python_full_version = "X.Y.Z"` (all of `X Y Z : Nat`, unbounded); `pyV X Y Z` is the version `X.Y.Z`.
@@ -11,6 +11,7 @@ single such version of precision 3.  `refEval E txt` is the PEP 508 reference va
 after the grammar recogniser `parseText`) of a marker text, the empty text being "no marker".
 -/
 import PoetryVerif.Proofs.PyConvNorm
+import PoetryVerif.Proofs.PyConvGpc
 import PoetryVerif.Proofs.VRangeOps
 import PoetryVerif.Proofs.MarkerProj
 
@@ -213,6 +214,23 @@ leaves: every interpreter is admitted). -/
 theorem pyConstraint_upper_foreign_leaf (l : Leaf) (h : isPyName l.name = false) (p : Version) :
     gpcLeaf l = .ok VC.any ∧ VC.any.allowsPlain p = true :=
   ⟨gpcLeaf_foreign l h, any_allowsPlain p⟩
+
+/-- **the one-sided part for whole markers**: wherever the marker holds, the range
+`get_python_constraint_from_marker` returns admits the interpreter — through the `only` shortcut (any / empty),
+the DNF (C07's `dnf_sound`, proved), the grouping of `convert_markers` (assertion included), de-duplication,
+the `[] in groups` shortcut and the printed text.  Hypotheses: C07's leaf specification `S`; `hL`: every python
+single-marker-like satisfying the invariant is a comparison item whose normalised clause means its truth
+(`normalize_pair_exact` composed with C06's leaf agreement); `hSp`: the constraint parser on texts of several
+clauses (`SplitSound`, C04/C05/C15's subject). -/
+theorem pyConstraint_upper_partial {ev : Leaf → Bool} {G : Leaf → Prop} (S : LeafSpec ev G) (X Y Z : Nat)
+    (m : M) (g : VC) (hg : M.Good G m)
+    (hL : ∀ l, G l → convKey l.name = pyKey → LeafClause ev X Y Z l) (hSp : SplitSound X Y Z)
+    (h : gpc m = .ok g) (hs : M.sem ev m = true) : g.allowsPlain (pyV X Y Z) = true :=
+  gpc_upper S X Y Z m g hg hL hSp h hs
+
+/-- a marker on another variable only: `only` answers `AnyMarker`, the range is universal -/
+example : gpc (.leaf (.single ⟨"sys_platform", "==", "linux", false, .gen (.s (.atom ⟨"linux", .eq, false⟩))⟩)) = .ok VC.any := by
+  rfl
 
 def C11_normalize_exact_full_statement : Prop :=
   ∀ (E : Env) (X Y Z : Nat) (disj : List (List (String × String × List Nat))), EnvPy E X Y Z →
